@@ -113,7 +113,9 @@ func modelFunctions(V []interface{}, single bool, funcs []int, faults [nFuncs]ui
 				r = arg[0]
 			}
 		default:
-			r = listArg(arg)
+			cp := make([]interface{}, len(arg)) // what the menu's "all"/"af" return: a non-nil copy
+			copy(cp, arg)
+			r = cp
 		}
 		list = []interface{}{r}
 		single = true
@@ -260,7 +262,7 @@ func runC14() *RunResult {
 	for i, f := range plans {
 		f := f
 		exp := modelFunctions(V, p.SingleValued, fl, f, cfg.Variant)
-		o := &Op{Kind: opCustom, Path: p, Cfg: cfg, Faults: f}
+		o := &Op{Kind: opCustom, Path: p, Cfg: cfg, Faults: f, LibErr: i%3 == 1}
 		o.Do = func(t *Task, o *Op) {
 			// every evaluation gets its own copy of the document: if the library damages the
 			// document (C04's subject) later evaluations must not inherit the damage
